@@ -352,9 +352,15 @@ def main():
     known_hits = {}
 
     def match_known(rec, clause):
+        """a failing clause of a record is excused only if the record carries the tag of a `known` entry
+        AND that entry lists this clause (entries without any clause information match every clause)"""
         for k in known_active:
-            tags = rec.get("tags", [])
-            if k["id"] in tags and (k.get("clause") in (None, clause) or clause in k.get("clauses", [])):
+            if k["id"] not in rec.get("tags", []):
+                continue
+            allowed = set(k.get("clauses", []))
+            if k.get("clause"):
+                allowed.add(k["clause"])
+            if not allowed or clause in allowed:
                 return k
         return None
 
